@@ -73,6 +73,24 @@ Theorem C12_today_hand :
 Proof. destruct sk_today_ok as [A B]. exact (conj A (conj B counter_today_ok)). Qed.
 Print Assumptions C12_today_hand.
 
+(* The first checkpoint(s) a RESUMED standard sampler writes - in particular one written at loop entry,
+   before any new iteration - record the pool flag the checkpoint resumed from had, for EVERY loop
+   prologue accepted by prologue_ok (no update_state before the first check_resume), every original
+   flag and every pattern of periodic-checkpoint conditions: so a second resume restores the pool. *)
+Theorem C12_entry_checkpoint_keeps_pool :
+  forall effs, prologue_ok effs = true ->
+  forall (orig : bool) (cks : list bool),
+    Forall (fun note => note = orig) (p_written (prologue effs cks (after_resume_pool orig))).
+Proof. exact prologue_sound. Qed.
+Print Assumptions C12_entry_checkpoint_keeps_pool.
+
+(* refuted variant: update_state() issued before check_resume() writes an entry checkpoint that says
+   "pool empty" although it is populated; the next resume throws the pool away *)
+Theorem C12_entry_checkpoint_swapped_refuted :
+  exists cks, p_written (prologue [PSkip; PUpdateState; PCheckResume] cks (after_resume_pool true)) = [false].
+Proof. exact prologue_swapped_refuted. Qed.
+Print Assumptions C12_entry_checkpoint_swapped_refuted.
+
 (* non-vacuity: a result-bearing field in the exclude set is rejected, with the field named;
    a concrete object round-trips; the counter chain computes *)
 Example C12_nonvacuous :
